@@ -505,6 +505,11 @@ class Controller:
                     return_parameters=result,
                 )
             )
+        elif isinstance(result, hci.HCI_StatusReturnParameters):
+            # Async (or unknown) command for which the handler only returned a
+            # status (this includes the default handler for unsupported commands):
+            # the command must still be answered.
+            self._send_hci_command_status(result.status, command.op_code)
         elif result is not None:
             logger.error("Async command handlers should return None, got %s", result)
 
